@@ -66,16 +66,25 @@ def intoFloat (prof : Profile) (f : Spec.FloatFmt) (d : Dec) : Outcome Nat :=
 inductive FloatErr | infinite | nan | overflow
 deriving Repr, DecidableEq
 
+/-- constants of `f64_decode` / `f32_decode` as read from the source:
+    exponent shift, exponent mask, NaN/inf exponent, fraction mask, integer bit, bias, fraction shift, sign shift -/
+def decodeConsts (f : Spec.FloatFmt) : Array Nat := if f.expBits = 11 then Gen.F64_DECODE else Gen.F32_DECODE
+
 /-- `f64_decode` / `f32_decode`: `(significand, exponent, sign)` -/
-def floatDecode (f : Spec.FloatFmt) (bits : Nat) : Outcome (Nat × Int × Int) := do
-  let signBit := (bits >>> (f.bits - 1)) % 256
-  let biasedExp : Int := ((bits >>> f.fracBits) &&& (2 ^ f.expBits - 1) : Nat)
-  assert (biasedExp ≠ (2 ^ f.expBits - 1 : Nat))
-  let fraction := bits &&& (2 ^ f.fracBits - 1)
-  if biasedExp = 0 then pure (0, 0, 0)
-  else
-    -- `1 - (sign_bit << 1) as i8`
-    pure (fraction ||| 2 ^ f.fracBits, biasedExp - f.bias - f.fracBits, 1 - IntTy.i8.cast ((signBit <<< 1) % 256))
+def floatDecode (f : Spec.FloatFmt) (bits : Nat) : Outcome (Nat × Int × Int) :=
+  match decodeConsts f with
+  | #[expShift, expMask, nanExp, fracMask, intBit, bias, fracShift, signShift] =>
+    let signBit := (bits >>> signShift) % 256
+    let biasedExp : Int := IntTy.i16.cast (((bits >>> expShift) &&& expMask : Nat) : Int)
+    match assert (biasedExp ≠ (nanExp : Int)) with
+    | .panic k => .panic k
+    | .ok () =>
+      let fraction := bits &&& fracMask
+      if biasedExp = 0 then .ok (0, 0, 0)
+      else
+        -- `1 - (sign_bit << 1) as i8`
+        .ok (fraction ||| intBit, biasedExp - bias - fracShift, 1 - IntTy.i8.cast ((signBit <<< 1) % 256))
+  | _ => .panic .other
 
 /-- loop of `approx_rational`; `k` = remaining iterations allowed by `n_frac_digits < 18` -/
 def approxLoop (prof : Profile) (divisor : Int) :
